@@ -153,6 +153,8 @@ class Executor:
         self.templates = []            # template invariants: functions poly -> poly (candidate facts t(v) >= 0)
         self._cand_cache = {}
         self.conserved_coeffs = []     # rule option: coefficients c for the loop-invariant candidates "a + c*b keeps its entry value"
+        self.prod_attempts = 0
+        self.product_step = False      # rule option: try one product step (N * count <= len ...) before recording a possible panic
         self.unroll = None             # (loop id, [back-edge states]) while a loop of known length is being expanded
         self.keep_dead_entry_locals = False   # rules that read a local of the entry function at its return
         self.result_facts = None       # fn(trait, method, result symbol name) -> [poly >= 0] assumed about an abstract call's result
@@ -797,6 +799,9 @@ class Executor:
                 return IntV(bits, signed, p=Poly.const(r if ca >= 0 else -r))
             name = "%s(%r,%r)" % (op.lower(), pa, pb)
             at = ("t", name)
+            if op == "Div" and not signed:
+                # floor division of non-negative values: b * (a / b) <= a
+                facts.add_fact_ge0(pa - pb * Poly.atom(at))
             lo, hi = pa.range(facts)
             if op == "Div" and lo is not None and lo >= 0 and cb and cb > 0:
                 register_range(at, lo // cb, hi // cb)
@@ -1122,6 +1127,20 @@ class Executor:
             self.discharged += 1
             return True
         bad = b_not(good)
+        if cv is None and self.product_step and self.feasible(st, bad):
+            # last resort before recording a possible panic: one product step (bounds like N * count <= len)
+            from poly import atom_pred_poly
+            a_ = good.is_atom()
+            n_ = (ONE - good).is_atom()
+            goal = None
+            if a_ is not None and a_[0] == "ge":
+                goal = atom_pred_poly(a_)
+            elif n_ is not None and n_[0] == "ge":
+                goal = -atom_pred_poly(n_) - 1          # not (q >= 0)  <=>  -q - 1 >= 0
+            self.prod_attempts += 1
+            if goal is not None and self.prod_attempts <= 3000 and st.facts.entails_ge0_prod(goal):
+                self.discharged += 1
+                return st.facts.assume(good, 1)
         if cv == 0 or self.feasible(st, bad):
             ps = st.fork()
             if cv == 0 or ps.facts.assume(bad, 1):
@@ -2609,6 +2628,7 @@ class Executor:
         """symbolically execute body `rec` from a fresh state. args: optional list of values
         (None entries are replaced by symbols named after the parameter)."""
         self.terminated = []
+        self.prod_attempts = 0
         self.loops = {}
         self.notes = []
         self.paths = 0
